@@ -337,6 +337,15 @@ Theorem C06_decision_reachable :
 Proof. exact CapsLedger.decision_reachable. Qed.
 Print Assumptions C06_decision_reachable.
 
+(* every established connection is answered on its transport, by exactly one of accept / reject *)
+Theorem C06_established_answered_once :
+  forall L m g p c t (lst f : bool),
+  LedgerInv.Reach L m g -> LedgerInv.feas L m g (TrEstablished p c t lst f) ->
+  let os := snd (do_established L m p c t lst f) in
+  (In (CallAccept c t) os \/ In (CallReject c t) os) /\ ~ (In (CallAccept c t) os /\ In (CallReject c t) os).
+Proof. exact CapsLedger.answered_once_reachable. Qed.
+Print Assumptions C06_established_answered_once.
+
 (* below the maximum, a connection of a peer the node is not connected to is accepted whatever its
    dial state (idle, dialing, opening, a remembered dial): generalises C06_below_limit_accepts *)
 Theorem C06_not_connected_accepted :
